@@ -185,6 +185,7 @@ package asm
 
 //@ func (*Emitter).Finalize
 //@   property C06
+//@   modular
 //@   requires !isnil(a.code) && len(a.code) <= 0x1000000
 //@   requires WF_S8IN(a) && WF_U16IN(a)
 //@   requires WF_S8DIST(a)
